@@ -1,6 +1,6 @@
 (** C08 — reported dependencies; graph and cache agree. *)
 From Coq Require Import List ZArith Bool.
-From MX Require Import Exec.Model Exec.Spec Exec.Sim Exec.Reads Exec.Cover Exec.Quiet Exec.Edits3 Exec.Edits4 Exec.Edits6 Exec.Results Exec.Top.
+From MX Require Import Exec.Model Exec.Spec Exec.Sim Exec.Reads Exec.Graph Exec.Cover Exec.Quiet Exec.Edits3 Exec.Edits4 Exec.Edits6 Exec.Results Exec.Top Exec.Exact Exec.Exact2 Exec.Acyclic.
 Import ListNotations.
 
 (** In every quiescent state reached by any history of evaluations, cache
@@ -13,9 +13,9 @@ Import ListNotations.
       cells it passed through, and every reference it read by attribute path
       is recorded as a predecessor ([cov_rd]),
     - uncached cells hold no value.
-    PARTIAL: the converse inclusion (no predecessor that was not read) and
-    acyclicity are not proved; they are checked by the correspondence and by
-    the reference-interpreter oracle on every run. *)
+    The converse inclusion (no predecessor that was not read) and acyclicity
+    are the theorems [C08_preds_are_exactly_the_reads] and [C08_acyclic]
+    below.  (The name [_partial] is kept for this first theorem only.) *)
 Theorem C08_graph_matches_cache_partial : forall st,
   Quiet st ->
   (forall i, In (node_of i) (s_nodes st) <-> has st i) /\
@@ -33,3 +33,54 @@ Theorem C08_reachable_states_quiet : forall fuel ops st xs st',
   ops_ok2 fuel st ops -> s_reent st' = true \/ (Quiet st' /\ refn_ok st').
 Proof. exact run_quiet2. Qed.
 Print Assumptions C08_reachable_states_quiet.
+
+(** EXACTNESS.  In every state reached by any history of evaluations, cache
+    hits, failed evaluations and edits, for every element [j] holding a
+    computed value [v] there is a terminating evaluation of its own formula by
+    the reads-instrumented specification, with result [v] and reads [ds], such
+    that every read is a recorded predecessor ([cov_rd]: cached element called
+    directly or through uncached cells -> item edge; uncached cells passed
+    through -> object-node edge; reference read by attribute -> reference-graph
+    edge) AND every recorded predecessor of [j] is one of these reads
+    ([rd_of_node]: an item node is a cached element called, an object node an
+    uncached cells passed through).  preds() = the calls made; succs() is the
+    same edge set read backwards. *)
+Theorem C08_preds_are_exactly_the_reads : forall fuel cells refs maxd ops xs st,
+  defs_ok cells -> refn_ok (init cells refs maxd) -> ops_ok2 fuel (init cells refs maxd) ops ->
+  run fuel (init cells refs maxd) ops = (xs, st) -> no_fuel_out xs -> s_reent st = false ->
+  forall j v, lookup_data (s_data st) j = Some v -> mem_item j (s_inputs st) = false ->
+  exists f ds, dr_own f (defs_of st) (input_data st) j = (Val v, ds) /\
+    Forall (cov_rd st j) ds /\
+    (forall a, In (a, node_of j) (s_edges st) -> In (rd_of_node a) ds).
+Proof. exact preds_are_exactly_the_reads. Qed.
+Print Assumptions C08_preds_are_exactly_the_reads.
+
+(** one-step form of exactness *)
+Theorem C08_step_keeps_exactness : forall fuel st o x st',
+  step fuel st o = (x, st') -> x <> OFuel -> Quiet st -> refn_ok st -> s_reent st = false -> s_reent st' = false ->
+  op_ok2 st o -> Exa st -> Exa st'.
+Proof. exact step_Exa. Qed.
+Print Assumptions C08_step_keeps_exactness.
+
+(** ACYCLICITY: no edge closes a path back to its source.  (Every edge is a
+    read, and what is read is evaluated by the specification with strictly
+    less fuel than its reader: a cycle would be an infinite descent.) *)
+Theorem C08_acyclic : forall fuel cells refs maxd ops xs st,
+  defs_ok cells -> refn_ok (init cells refs maxd) -> ops_ok2 fuel (init cells refs maxd) ops ->
+  run fuel (init cells refs maxd) ops = (xs, st) -> no_fuel_out xs -> s_reent st = false ->
+  forall a b, In (a, b) (s_edges st) -> ~ path (s_edges st) b a.
+Proof. exact reachable_graph_acyclic. Qed.
+Print Assumptions C08_acyclic.
+
+(** non-vacuity: a cached cells calling a cached one through an uncached one and
+    reading a reference by attribute; edges and reads coincide *)
+Definition ex8x_cells : list (cid * cell) :=
+  [ (0, mkCell [SAssign (EBin Add (ECall 1 [EPar 0]) (ERefA 0))] 1 [] true false 0);
+    (1, mkCell [SAssign (ECall 2 [EPar 0])] 1 [] false false 0);
+    (2, mkCell [SAssign (EBin Mul (EPar 0) (EConst (VInt 2)))] 1 [] true false 0) ].
+Example C08_exact_example :
+  let st := snd (run 100 (init ex8x_cells [(0, (None, VInt 5))] 50) [OpEval (0, [VInt 3])]) in
+  s_edges st = [(NItem 2 [VInt 3], NItem 0 [VInt 3]); (NObj 1, NItem 0 [VInt 3])]
+  /\ dr_own 50 (defs_of st) (input_data st) (0, [VInt 3]) = (Val (VInt 11), [RObj 1; RItem (2, [VInt 3]); RAttr 0])
+  /\ s_redges st = [(0, (0, [VInt 3]))] /\ s_reent st = false.
+Proof. vm_compute. repeat split; reflexivity. Qed.
